@@ -114,6 +114,29 @@ def check(ctx):
         ok = any(p and "ConfigChange is None" in t and "ConfigChange.done()" in t for t, p in facts)
         ok = ok and bool(waits) and not any(x.suspends for x in gs_.between(renew[0], waits[0])) and gs_.reachable(renew[0], waits[0])
     ctx.ob("R3", "config_sleep::renews-when-none-or-done", ok, "config_sleep does not renew the shared future exactly when it is None or done, right before waiting (a done future makes every later sleep return at once: busy loops)", cs.loc)
+    # the shared future may be replaced only when it is None or done: a pending future that other
+    # sleepers are blocked on must never be dropped or rebound (they would miss the next wake-up)
+    n_w = 0
+    for fi in list(m.functions.values()):
+        gfi = cfg_of(fi)
+        for n in gfi.stmt_nodes():
+            if isinstance(n.ast, (ast.Assign, ast.AnnAssign, ast.AugAssign)):
+                tg = n.ast.targets if isinstance(n.ast, ast.Assign) else [n.ast.target]
+                if any(ast.unparse(t) == "ConfigChange" for t in tg):
+                    n_w += 1
+                    facts = gfi.guard_atoms(n)
+                    okw = any(p and "ConfigChange is None" in t and "ConfigChange.done()" in t for t, p in facts) or \
+                        ("ConfigChange is None", True) in facts or ("ConfigChange.done()", True) in facts
+                    ctx.ob("R3", f"{fi.qual}::rebinds-shared-future-only-when-none-or-done::L{n_w}", okw,
+                           f"{fi.qual}: the shared ConfigChange future is rebound (`{n.text()}`, L{n.lineno}) while it may still be pending: sleepers blocked on the old future are no longer woken by set_config_mode",
+                           loc(fi, n.ast))
+    for other in repo.all_mods():
+        if other.rel.endswith("/config.py"):
+            continue
+        for n in ast.walk(other.tree):
+            if isinstance(n, ast.Attribute) and n.attr == "ConfigChange" and isinstance(n.ctx, ast.Store):
+                ctx.ob("R3", f"{other.rel}::writes-ConfigChange", False, f"{other.rel} writes config.ConfigChange", other.rel)
+    ctx.floor("R3", "writes of the shared future in config.py functions", n_w, 1)
     ctx.ob("R3", "config_sleep::global", any(isinstance(n, ast.Global) and "ConfigChange" in n.names for n in ast.walk(cs.node)), "config_sleep rebinds a local instead of the shared future", cs.loc)
 
     # ---- R4 who sleeps how ------------------------------------------------------------------------
